@@ -80,15 +80,19 @@ class Feed:
 class MemoryGuard:
     """an endless group that is not instrumented (sequence($), $.repeat()) can only be stopped by the address space: an
     implementation that materialises it builds the tuple inside one C call, which no alarm interrupts.  While such a case
-    is evaluated the process may grow by 1.5 GB at most; the MemoryError is then an (unexpected) observation."""
+    is evaluated the address space of the process is capped at its size at the first such case + 1.5 GB (one fixed
+    ceiling: memory the allocator keeps after a MemoryError must not raise it); the MemoryError is then an (unexpected)
+    observation."""
+    ceiling = None
 
     def __enter__(self):
         import resource
         self.res = resource
         self.old = resource.getrlimit(resource.RLIMIT_AS)
         try:
-            now = int(open("/proc/self/statm").read().split()[0]) * resource.getpagesize()
-            cap = now + (3 << 29)
+            if MemoryGuard.ceiling is None:
+                MemoryGuard.ceiling = int(open("/proc/self/statm").read().split()[0]) * resource.getpagesize() + (3 << 29)
+            cap = MemoryGuard.ceiling
             if self.old[1] != resource.RLIM_INFINITY:
                 cap = min(cap, self.old[1])
             resource.setrlimit(resource.RLIMIT_AS, (cap, self.old[1]))
